@@ -53,6 +53,10 @@ def new_table(rng):
     if rng.random() < 0.7:
         data["energy"] = 7.0
         data["title"] = "abc"
+        if rng.random() < 0.5:      # sized scalar entries whose length may coincide with the row count
+            data["tune"] = (62.31, 60.32)
+            data["notes"] = []
+            data["label"] = "x" * n
     rng.shuffle(cols)
     return Table(data, col_names=cols, index="name")
 
